@@ -1515,3 +1515,9 @@ def m_product(ctx, args, kw):
         return NotImplemented
     ctx.assumed.add("itertools.product: tuples in lexicographic index order, last argument varying fastest")
     return tuple(_it.product(*lists))
+
+
+model(np.arcsin)(_uf1("arcsin"))
+model(np.arccos)(_uf1("arccos"))
+model(np.arctan)(_uf1("arctan"))
+model(np.cbrt)(_uf1("cbrt"))
